@@ -26,6 +26,7 @@ func init() {
 			"(R09.7) every interpreter arm, compiler Go-side arm and frontend arm that stores a guest-provided reference into a table registers the reference's defining instance for keep-alive – on this tree none does: this is the hazard named in the property text, demonstrated against the real code (seeded/C09-baseline) and recorded as eight known findings, one per storing arm. " +
 			"NOT decided: which values actually flow between instances at run time, references held in globals, absence of crashes in general.",
 		Rules: []core.Rule{
+			{ID: "R09.8", Template: "T-CONSULT", Text: "an engine's compiled-module entry, shared by all compilations of one module ID, is deleted only with its last user (genuine defect found and fixed: found independently by four hunts)", Min: 2},
 			{ID: "R09.1", Template: "T-WHOCALLS", Text: "callers of MunmapCodeSegment are registered finalizers; finalizers are only referenced as finalizer arguments", Min: 4},
 			{ID: "R09.2", Template: "T-MUSTPASS", Text: "every mapping site reaches the owner's finalizer registration on all normal paths (interprocedural summaries)", Min: 10},
 			{ID: "R09.3", Template: "T-OWN", Text: "finalizer-carrying types are never held or copied by value", Min: 2},
@@ -36,6 +37,7 @@ func init() {
 		},
 		Run: runC09,
 		Controls: []core.Control{
+			{Name: "compiled-entry-deleted-by-any-user", File: "internal/engine/wazevo/engine.go", Old: "\t\tif cm.refCount--; cm.refCount > 0 {\n\t\t\treturn\n\t\t}\n", New: "", Rule: "R09.8", Substr: "compiler"},
 			{Name: "delete-unmaps-code", File: "internal/engine/wazevo/engine.go", Old: "\t\tdelete(e.compiledModules, m.ID)\n\t}\n}", New: "\t\tdelete(e.compiledModules, m.ID)\n\t\tif len(cm.executable) > 0 {\n\t\t\t_ = platform.MunmapCodeSegment(cm.executable)\n\t\t}\n\t}\n}", Rule: "R09.1", Substr: "DeleteCompiledModule"},
 			{Name: "finalizer-called-on-close", File: "internal/engine/wazevo/engine.go", Old: "\te.compiledModules = nil\n", New: "\te.compiledModules = nil\n\tsharedFunctionsFinalizer(e.sharedFunctions)\n", Rule: "R09.1", Substr: "called directly"},
 			{Name: "cache-hit-without-finalizer", File: "internal/engine/wazevo/engine_cache.go", Old: "\t\t// Set the finalizer.\n\t\te.setFinalizer(cm.executables, executablesFinalizer)\n", New: "", Rule: "R09.2", Substr: "CompileModule"},
@@ -54,6 +56,7 @@ func init() {
 const wzv = "internal/engine/wazevo"
 
 func runC09(c *core.Ctx) {
+	checkSharedEntriesRefCounted(c)
 	c.SSA()
 	fns := moduleFns(c, wzv)
 	if len(fns) == 0 {
